@@ -225,6 +225,29 @@ pub fn run(out: &mut Out, seed: u64, thorough: bool) {
             }
         }
     }
+    // very long chains (more extensions than a byte can count) and chains in which the same extension - id and data -
+    // occurs more than once
+    for n in [255usize, 256, 257, 300] {
+        let exts: Vec<ExtSpec> = (0..n).map(|i| ExtSpec { id: 0x0100 + (i % 200) as u16, data: vec![] }).collect();
+        one(out, &mut rng, &exts, 0x0800, LA3, 20, 4 + 3 + 2 * n + 20, 2, "long_chain");
+        one(out, &mut rng, &exts, 0x0800, LA3, 20, 7 + 3 + 2 * n + 22 + 5, 2, "long_chain_frag");
+    }
+    let ea = ExtSpec { id: 0x0211, data: vec![0xA1, 0xA2] };
+    let eb = ExtSpec { id: 0x0322, data: vec![1, 2, 3, 4] };
+    for chain in [vec![ea.clone(), ea.clone()], vec![ea.clone(), eb.clone(), ea.clone()], vec![eb.clone(), eb.clone(), eb.clone()], vec![ea.clone(), ea.clone(), eb.clone()]] {
+        let extlen: usize = chain.iter().map(|e| 2 + e.data.len()).sum();
+        one(out, &mut rng, &chain, 0x0800, LA6, 15, 4 + 6 + extlen + 15, 2, "repeated_ext");
+        one(out, &mut rng, &chain, 0x86DD, LA6, 15, 7 + 6 + extlen + 5, 2, "repeated_ext_frag");
+    }
+    // the reserved all-zero label with every kind of chain closing: refused, nothing written, nothing remembered
+    for (exts, ptype) in [(vec![ExtSpec { id: 0x0046, data: vec![] }], 0x0046u16), (vec![ExtSpec { id: 0x0043, data: vec![5, 6] }], 0x0043), (vec![ExtSpec { id: 0x0211, data: vec![1, 2] }], 0x0800)] {
+        let pdu = Pdu::random(out, 12, &mut rng);
+        out.begin("ext", Obj::new().str("what", "zero_label_ext").boolean("lock", false));
+        let mut enc = Encapsulator::new(DefaultCrc {});
+        ev_encap(out, &mut enc, &pdu, 5, Label::SixBytesLabel([0; 6]), ptype, 100, Some(&exts), None);
+        ev_encap(out, &mut enc, &pdu, 5, Label::SixBytesLabel([0; 6]), ptype, 100, Some(&exts), None);
+        ev_encap(out, &mut enc, &pdu, 5, LA6, 0x0800, 100, None, None);
+    }
     // a final mandatory extension takes the place of the protocol type on the wire, but the total length still
     // counts two bytes for it: PDUs at the 16-bit limit, just below and just above
     for (ei, (exts, ptype)) in [(vec![ExtSpec { id: 0x0046, data: vec![] }], 0x0046u16), (vec![ExtSpec { id: 0x0043, data: vec![5, 6] }], 0x0043), (vec![ExtSpec { id: 0x0211, data: vec![1, 2] }], 0x0800)].iter().enumerate() {
